@@ -32,6 +32,7 @@ def side(s, expected, kp):
     return (expected, kp) if len(expected) >= len(kp) else (kp, expected)
 
 
+@core.safe_case
 def one(ctx, pts, K, E, t, family):
     import kneeliverse.evaluation as ev
     n = len(pts)
